@@ -151,7 +151,7 @@ def run(ctx):
     for name in ('HashJoinView', 'HashLeftJoinView', 'HashRightJoinView'):
         c11._hash_dispatch(ctx, sub, ctx.project.need_fn('petl.transform.hashjoins:%s.__iter__' % name))
     for o in sub.obligations:
-        rep.add('R7.4', (o.module, o.qualname), o.construct, o.status, o.message, None, o.detail)
+        rep.add('R7.4', (o.module, o.qualname), o.construct, o.status, o.message, o.lineno, o.detail)
 
 
 def _majority(values):
